@@ -116,6 +116,25 @@ Theorem C08_allowed_plan_sound : forall ttl tick fleet r shards qs,
 Proof. exact blocks_okb_sound. Qed.
 Print Assumptions C08_allowed_plan_sound.
 
+(** 8. server.validateRegions (run by SetRegions on the request before it is persisted): an accepted
+       specification has at least one region, as many counts as regions, no duplicate and no empty
+       name; for such a specification a launch is refused exactly when some defined shard cannot be
+       placed. *)
+Theorem C08_validated_spec : forall regs,
+  validate_regions regs = true ->
+  exists r, regs = Some r /\ rg_region r <> [] /\ length (rg_region r) = length (rg_count r) /\
+            NoDup (rg_region r) /\ ~ In 0 (rg_region r).
+Proof. exact validate_regions_ok. Qed.
+Print Assumptions C08_validated_spec.
+
+Theorem C08_validated_refuse_iff : forall ttl tick fleet shards r ds,
+  validate_regions (Some r) = true -> go_sized shards ->
+  launch ttl tick fleet shards (Some r) ds <> OutOfDraws ->
+  (launch ttl tick fleet shards (Some r) ds = Refused <->
+   exists sd, In sd shards /\ unplaceable ttl tick fleet r sd).
+Proof. exact validated_refuse_iff. Qed.
+Print Assumptions C08_validated_refuse_iff.
+
 (** * Non-vacuity *)
 
 Definition H (a r t : N) (ss : list N) : hostspec := mkHost a 0 r t [] (list_to_set ss).
@@ -264,3 +283,19 @@ Example ex_allowed :
   allowed 60 100 ex_fleet [mkSD 8 [31; 32; 33] 9] (Some (mkRegions [3] [3])) Refused = true /\
   allowed 60 100 ex_fleet [mkSD 8 [31; 32] 9] (Some (mkRegions [3] [2])) (Plan [rq 8 [31; 32] [3; 5] 31 3; rq 8 [31; 32] [3; 5] 32 5]) = false.
 Proof. vm_compute. repeat split; reflexivity. Qed.
+
+(** validateRegions: accepted / every kind of refusal *)
+Example ex_validate_regions :
+  validate_regions (Some (mkRegions [3; 1] [2; 1])) = true /\
+  validate_regions None = false /\ validate_regions (Some (mkRegions [] [])) = false /\
+  validate_regions (Some (mkRegions [3; 1] [2])) = false /\
+  validate_regions (Some (mkRegions [3; 0] [2; 1])) = false /\
+  validate_regions (Some (mkRegions [3; 3] [2; 1])) = false.
+Proof. vm_compute. repeat split; reflexivity. Qed.
+
+(** a leftover persistent-log record for exactly the member that lands on the host changes nothing *)
+Example ex_plog_ignored :
+  launch 60 100 [mkHp 3 3 100 [] [(8, 31)]; mkHp 4 3 100 [] [(8, 32); (7, 31)]] [mkSD 8 [31; 32] 9]
+         (Some (mkRegions [3] [2])) [0; 1] =
+  Plan [rq 8 [31; 32] [3; 4] 31 3; rq 8 [31; 32] [3; 4] 32 4].
+Proof. vm_compute. reflexivity. Qed.
